@@ -9,8 +9,21 @@ import (
 	"encoding/hex"
 	"fmt"
 	"os"
+	"strconv"
 	"strings"
+	"time"
 )
+
+// watchdog scale: GFH_TSCALE=<float> multiplies every watchdog of the harness (used by the check to
+// confirm, on an isolated re-run, that an expired watchdog is not an artefact of a loaded machine)
+var tscale = func() float64 {
+	if v, err := strconv.ParseFloat(os.Getenv("GFH_TSCALE"), 64); err == nil && v > 0 {
+		return v
+	}
+	return 1
+}()
+
+func wd(d time.Duration) time.Duration { return time.Duration(float64(d) * tscale) }
 
 type handler func(args []string) string
 
